@@ -54,7 +54,7 @@ def eff(e, mutex_shared):
     if not frm:
         return "U"
     if not all(i or x for (_, _, i, x) in e["accesses"]):
-        return "N"
+        return "U"        # some accesses are unprotected, but the function does queue on the lock somewhere
     return "S" if (cls == "sharedLock" and mutex_shared) else "X"
 
 
